@@ -10,12 +10,14 @@ EXTENDS SwcBase
 
 \* ------------------------------ re-rooting -------------------------------
 \* attr[k] = <<type, y, z, r>>; identity of a result node = the input id (map[k])
-RedirType(attr, i, j) == IF j = i THEN attr[1][1] ELSE IF j = 0 THEN attr[i + 1][1] ELSE attr[j + 1][1]
+\* (the input's root need not be its node 0: re-rooting without sorting documents such results, and a file may list the soma last)
+RootOf(P) == CHOOSE k \in Nodes(P) : Par(P, k) = -1
+RedirType(attr, r0, i, j) == IF j = i THEN attr[r0 + 1][1] ELSE IF j = r0 THEN attr[i + 1][1] ELSE attr[j + 1][1]
 RedirectWhy(P, attr, i, sort, map, rpid, rattr) ==
     LET n == Len(P) IN
     IF Len(map) # n \/ ~Injective(map) \/ Range(map) # Nodes(P)              THEN "node-set"
     ELSE IF Len(rpid) # n \/ Len(rattr) # n                                  THEN "lengths"
-    ELSE IF \E k \in 1 .. n : rattr[k][1] # RedirType(attr, i, map[k])        THEN "types"
+    ELSE IF \E k \in 1 .. n : rattr[k][1] # RedirType(attr, RootOf(P), i, map[k])        THEN "types"
     ELSE IF \E k \in 1 .. n : Tail(rattr[k]) # Tail(attr[map[k] + 1])         THEN "attributes"
     ELSE IF \E k \in 1 .. n : rpid[k] # -1 /\ rpid[k] \notin 0 .. n - 1       THEN "dangling-parent"
     ELSE IF { k \in 1 .. n : rpid[k] = -1 } # { PosOf(map, i) + 1 }           THEN "root"
